@@ -80,6 +80,23 @@ add("C17", True,
     "Every schema generator in dims 1..8 with every row/class and dyadic parameters is compared with an independently written textbook reference (guards + affine pieces) cell by cell and at inputs whose relevant component is a breakpoint or a breakpoint +- small steps (argmax/class: 3-letter alphabet, ties everywhere); from_poly with/without else; from_slice+compose+remove_axes against T(embed(y)). Exploration over bounded dims.",
     PWL_NOTE + " Hard sigmoid (1/6) compared with 1e-12 tolerance.", "DESIGN.md 6/C17")
 
+add("C01", True,
+    "property-based testing (proptest): generated networks; the distilled tree is decided equal to the textbook network semantics on all full-dimensional linear regions by exact LP refinement, plus exact evaluation at planted breakpoint/tie inputs",
+    "For every generated network (all activation kinds, argmax/class heads, linear layer after the head, preconditions incl. lower-dimensional and empty ones, biases planted so that pre-activations hit breakpoints at exactly propagated anchors, duplicated rows for ties) the distilled tree is compared with the composition of the textbook definitions cell by cell (decides the network almost everywhere) and at boundary inputs with no thin exemption, undefinedness outside the precondition included. A float regime (hard sigmoid, raw weights) is judged with explicit tolerances and dead zones. Exploration: <= 3 inputs, <= 3 linear layers of width <= 4.",
+    PWL_NOTE + " Textbook definitions in harness/src/schema.rs.", "DESIGN.md 6/C01")
+add("C11", True,
+    "fault injection at the LP boundary (cfg hook) with exhaustive enumeration of single faults per generated tree when N <= 40 LP calls, sampled otherwise, plus generated multi-fault plans; every faulted run judged by the C03/C04/C05 oracles",
+    "For generated trees and operations (infeasible_elimination, compose<true>, tree+-tree) the fault-free run is counted, then every single call position x {Error, Unbounded, perturbed witness, far-off witness} is injected (exhaustive for that tree when N <= 40) plus multi-fault plans; each faulted run must not panic, must stay well-formed, must denote the unpruned reference function, must cache only sound witnesses/verdicts and may only prune less than the fault-free run.",
+    "Trusted: the hook (src/linalg/polyhedron.rs, cfg(affinitree_verif)) replaces only the answer of the chosen call; oracles as in C03/C04/C05.", "DESIGN.md 6/C11", category="fault_enumeration")
+add("C18", True,
+    "stateful property-based testing (proptest): builder-call histories vs a model of the true output dimension; every split point re-distilled and compared by exact cell refinement; generated npz files round-tripped through read_layers",
+    "Generated sequences of Architecture calls (valid and invalid, continuing after argmax and after rejected calls) are compared call by call with a model of the true output dimension (accept/reject, unchanged state on Err, current_shape); the accepted architecture is distilled and compared with the textbook semantics, and for every split point the two extracted halves must carry the right shapes and compose to the same function; layer files in the shipped npz dialect (up to 40 entries, shuffled archive order, optional 000.layers.npy) must be read back in index order, weights bit-for-bit, one activation per neuron.",
+    PWL_NOTE + " Scratch files under /verif/work are removed after each case.", "DESIGN.md 6/C18")
+add("C19", True,
+    "property-based round-trip testing (proptest): the rendered text/DOT is parsed back by an independent recursive-descent parser and compared with the stored object",
+    "Generated matrices (mixed magnitudes, -0.0, half-way decimals, zero rows) under all FormatOptions combinations and precisions, and generated trees (holes in the index space) for Display and Dot: every shown coefficient must sit next to the index of the variable it multiplies and equal the stored (normalised) value at the printed precision, signs, inequality direction and bias must match, omissions must be marked by exactly one ellipsis at the right place with sorted order/bracketing respected, and the tree/DOT output must contain exactly one statement per node and per raw (parent,label,child) edge with the node's own function.",
+    "Trusted: the output grammar of DESIGN.md Appendix B and the 150-line parser in harness/src/props/c19.rs; DOT shape attributes are outside the statement.", "DESIGN.md 6/C19")
+
 PENDING_REASON = "check not built yet in this round (planned; see DESIGN.md Appendix D) - no claim is made"
 
 ALL = ["C%02d" % i for i in range(1, 20)]
